@@ -2,12 +2,12 @@ package c05
 
 // C05 / C06 correspondence + monitors on the REAL in-process fxcore app.
 //
-//   - real crosschain keepers (eth, bsc) with two registered bridge tokens each, four funded users, one bonded
-//     oracle holding all the power;
+//   - real crosschain keepers (eth, bsc, tron) with three registered bridge tokens each, four funded users, THREE bonded
+//     oracles (round 5; none reaches the quorum alone) each submitting its own claim;
 //   - user operations go through the real message servers (ValidateBasic, then MsgServer in a cache context that is
 //     committed only on success, as baseapp does for a transaction);
-//   - an external event is observed through the real path MsgClaim -> Attest -> TryAttestation (single oracle =>
-//     quorum at once), i.e. processAttestation + cleanupTimedOutBatches + cleanupTimeOutBridgeCall run exactly as in
+//   - an external event is observed through the real path MsgClaim -> Attest -> TryAttestation, one claim per oracle
+//     (`obs`: all report the same claim; `vote`: one oracle on its own, possibly deviating), i.e. processAttestation + cleanupTimedOutBatches + cleanupTimeOutBridgeCall run exactly as in
 //     production; pending bridge-call results are applied with keeper.ExecuteClaim (what the executeClaim precompile calls);
 //   - fxcore height is moved with ctx.WithBlockHeight and the keeper's real EndBlocker runs at the new height (the signed
 //     window is set far beyond every height reached, so the slashing part of EndBlocker is idle: slashing is C07/C13);
@@ -65,7 +65,13 @@ type env struct {
 	chain   string
 	k       crosschainkeeper.Keeper
 	ms      types.MsgServer
-	bridger sdk.AccAddress
+	bridger sdk.AccAddress // bridger of oracle 0 (also the sender of batch requests)
+	// round 5: several oracles, each with its own bridger; powers (oracle.GetPower()) and the recorded total power as the
+	// chain holds them after bonding — they go into the reset line, the model tallies with the same numbers
+	oracles  []sdk.AccAddress
+	bridgers []sdk.AccAddress
+	powers   []int64
+	total    int64
 	tokens  []tokenInfo
 	actors  []sdk.AccAddress
 	actorOf map[string]int // bech32, hex-external -> index
@@ -92,15 +98,34 @@ func detBytes(tag string, i int) []byte {
 
 func setupChain(t *testing.T, s *hx.Suite, chain string, k crosschainkeeper.Keeper) *env {
 	e := &env{s: s, chain: chain, k: k, ms: crosschainkeeper.NewMsgServerImpl(k), actorOf: map[string]int{}, tokenOf: map[string]int{}}
-	oracle := s.AddTestAddress(1, types.NewDelegateAmount(sdkmath.NewInt(300*1e3).MulRaw(1e18)))[0]
-	e.bridger = s.AddTestAddress(1, sdk.NewCoin(fxtypes.DefaultDenom, sdkmath.NewInt(1000).MulRaw(1e18)))[0]
-	k.SetProposalOracle(s.Ctx, &types.ProposalOracle{Oracles: []string{oracle.String()}})
-	_, err := e.ms.BondedOracle(s.Ctx, &types.MsgBondedOracle{OracleAddress: oracle.String(), BridgerAddress: e.bridger.String(),
-		ExternalAddress: types.ExternalAddrToStr(chain, detBytes(chain+"/oracle-ext", 0)), ValidatorAddress: s.ValAddr[0].String(),
-		DelegateAmount: types.NewDelegateAmount(sdkmath.NewInt(10000).MulRaw(1e18)), ChainName: chain})
-	if err != nil {
-		t.Fatalf("bond oracle: %v", err)
+	// delegate amounts (in units of 1e18) -> powers 400/300/300, 500/300/200, 340/330/330 of a total of 1000 (required: 660):
+	// no single oracle reaches the quorum, the two strongest always do, and on every chain there is an oracle whose vote
+	// is not needed by the others
+	delegates := map[string][]int64{"eth": {40000, 30000, 30000}, "bsc": {50000, 30000, 20000}, "tron": {34000, 33000, 33000}}[chain]
+	e.oracles = s.AddTestAddress(len(delegates), types.NewDelegateAmount(sdkmath.NewInt(300*1e3).MulRaw(1e18)))
+	e.bridgers = s.AddTestAddress(len(delegates), sdk.NewCoin(fxtypes.DefaultDenom, sdkmath.NewInt(1000).MulRaw(1e18)))
+	e.bridger = e.bridgers[0]
+	var oracleStrs []string
+	for _, o := range e.oracles {
+		oracleStrs = append(oracleStrs, o.String())
 	}
+	k.SetProposalOracle(s.Ctx, &types.ProposalOracle{Oracles: oracleStrs})
+	for i, o := range e.oracles {
+		_, err := e.ms.BondedOracle(s.Ctx, &types.MsgBondedOracle{OracleAddress: o.String(), BridgerAddress: e.bridgers[i].String(),
+			ExternalAddress: types.ExternalAddrToStr(chain, detBytes(chain+"/oracle-ext", i)), ValidatorAddress: s.ValAddr[0].String(),
+			DelegateAmount: types.NewDelegateAmount(sdkmath.NewInt(delegates[i]).MulRaw(1e18)), ChainName: chain})
+		if err != nil {
+			t.Fatalf("bond oracle %d: %v", i, err)
+		}
+	}
+	for _, o := range e.oracles {
+		or, found := k.GetOracle(s.Ctx, o)
+		if !found {
+			t.Fatalf("oracle not stored")
+		}
+		e.powers = append(e.powers, or.GetPower().Int64())
+	}
+	e.total = k.GetLastTotalPower(s.Ctx).Int64()
 	for i := 0; i < nActors; i++ {
 		a := sdk.AccAddress(detBytes(chain+"/actor", i))
 		e.actors = append(e.actors, a)
@@ -224,6 +249,11 @@ type seq struct {
 	// the ghost exactly as Model/C05Ext.lean defines it (Ext / Ext.next / admissible): compared with the Lean driver's
 	// verdict on every observation line, and used for the theorem-shaped monitor (whole run admissible => event applied)
 	lg leanGhost
+	// round 5: the votes accepted so far per event nonce, and the vote that completed a quorum during the current op
+	votes        map[uint64][]voteRec
+	crossedBy    *voteRec
+	crossedNonce uint64
+	noSplit      bool // corpus replay: the lines are taken as they are
 }
 
 type leanGhost struct {
@@ -464,10 +494,52 @@ func (q *seq) line(res string, sn snap) string {
 		fm = append(fm, strconv.Itoa(i))
 	}
 	h := q.e.k.GetLastObservedBlockHeight(q.ctx)
-	return fmt.Sprintf("%s next=%d,%d,%d pool=[%s] batches=[%s] calls=[%s] pend=[%s] obs=%d,%d,%d bal=%s erc=%s rel=[%s] frommsg=[%s]", res,
+	// the voting layer (round 5): the stored attestations of the last observed and of later event nonces — event nonce, voters
+	// (oracle indices) in vote order, observed — and the last event nonce of every oracle
+	lastObs := q.e.k.GetLastObservedEventNonce(q.ctx)
+	type attRec struct {
+		key uint64
+		s   string
+	}
+	var atts []attRec
+	q.e.k.IterateAttestationAndClaim(q.ctx, func(att *types.Attestation, claim types.ExternalClaim) bool {
+		if claim.GetEventNonce() < lastObs {
+			return false
+		}
+		var vs []string
+		first := uint64(0)
+		for i, v := range att.Votes {
+			idx := -1
+			for o, oa := range q.e.oracles {
+				if oa.String() == v {
+					idx = o
+				}
+			}
+			if i == 0 && idx >= 0 {
+				first = uint64(idx)
+			}
+			vs = append(vs, strconv.Itoa(idx))
+		}
+		ob := 0
+		if att.Observed {
+			ob = 1
+		}
+		atts = append(atts, attRec{claim.GetEventNonce()*1000 + first, fmt.Sprintf("%d:%s:%d", claim.GetEventNonce(), strings.Join(vs, ","), ob)})
+		return false
+	})
+	sort.SliceStable(atts, func(i, j int) bool { return atts[i].key < atts[j].key })
+	var attS, lastS []string
+	for _, a := range atts {
+		attS = append(attS, a.s)
+	}
+	for _, oa := range q.e.oracles {
+		lastS = append(lastS, fmt.Sprint(q.e.k.GetLastEventNonceByOracle(q.ctx, oa)))
+	}
+	return fmt.Sprintf("%s next=%d,%d,%d pool=[%s] batches=[%s] calls=[%s] pend=[%s] obs=%d,%d,%d bal=%s erc=%s rel=[%s] frommsg=[%s] atts=[%s] last=%s", res,
 		sn.next[0], sn.next[1], sn.next[2],
 		strings.Join(pool, ";"), strings.Join(batches, ";"), strings.Join(calls, ";"), strings.Join(pend, ";"),
-		h.ExternalBlockHeight, h.BlockHeight, q.e.k.GetLastObservedEventNonce(q.ctx), strings.Join(bal, ","), strings.Join(erc, ","), strings.Join(rel, ","), strings.Join(fm, ","))
+		h.ExternalBlockHeight, h.BlockHeight, lastObs, strings.Join(bal, ","), strings.Join(erc, ","), strings.Join(rel, ","), strings.Join(fm, ","),
+		strings.Join(attS, ";"), strings.Join(lastS, ","))
 }
 
 // deliver runs f in a cache context committed only on success (as a transaction); returns ok / err / panic.
@@ -680,6 +752,14 @@ func (q *seq) opPExec(n uint64, who int) (string, string) {
 	return fmt.Sprintf("pexec %d %d", n, who), res
 }
 
+func joinInts(xs []int64) string {
+	var w []string
+	for _, x := range xs {
+		w = append(w, fmt.Sprint(x))
+	}
+	return strings.Join(w, ",")
+}
+
 func (q *seq) claim(c types.ExternalClaim) string {
 	any, err := codectypes.NewAnyWithValue(c)
 	if err != nil {
@@ -695,28 +775,98 @@ func (q *seq) claim(c types.ExternalClaim) string {
 
 func (q *seq) nextEventNonce() uint64 { return q.e.k.GetLastObservedEventNonce(q.ctx) + 1 }
 
-func (q *seq) opObsOther(h uint64) (string, string) {
-	q.otherN++
-	contract := types.ExternalAddrToStr(q.e.chain, detBytes(fmt.Sprintf("%s/other/%d", q.e.chain, q.out.Stats.Sequences), q.otherN))
-	res := q.claim(&types.MsgBridgeTokenClaim{EventNonce: q.nextEventNonce(), BlockHeight: h, TokenContract: contract, Name: "Other", Symbol: fmt.Sprintf("OT%d", q.otherN),
-		Decimals: 18, BridgerAddress: q.e.bridger.String(), ChainName: q.e.chain})
-	return fmt.Sprintf("obs %d other", h), res
+// evSpec: the content of an external event as the op lines write it (`batch <token> <nonce>`, `result <call> <0|1>`, `other`)
+type evSpec struct {
+	kind string
+	a, b uint64
 }
 
+func (v evSpec) String() string {
+	if v.kind == "other" {
+		return "other"
+	}
+	return fmt.Sprintf("%s %d %d", v.kind, v.a, v.b)
+}
+
+// buildClaim: the claim oracle `o` submits for event nonce n, external height h and event ev.  Everything that is not in the
+// op line is a function of (sequence, event nonce), so that the votes of different oracles for one event differ exactly
+// where the op lines say they do.
+func (q *seq) buildClaim(o int, n, h uint64, ev evSpec) types.ExternalClaim {
+	br := q.e.bridgers[o].String()
+	switch ev.kind {
+	case "batch":
+		contract := "0x0000000000000000000000000000000000000000"
+		if int(ev.a) < len(q.e.tokens) {
+			contract = q.e.tokens[ev.a].contract
+		}
+		return &types.MsgSendToExternalClaim{EventNonce: n, BlockHeight: h, BatchNonce: ev.b, TokenContract: contract, BridgerAddress: br, ChainName: q.e.chain}
+	case "result":
+		return &types.MsgBridgeCallResultClaim{ChainName: q.e.chain, BridgerAddress: br, EventNonce: n, BlockHeight: h, Nonce: ev.a, TxOrigin: q.e.dests[0], Success: ev.b == 1, Cause: ""}
+	}
+	contract := types.ExternalAddrToStr(q.e.chain, detBytes(fmt.Sprintf("%s/other/%d", q.e.chain, q.out.Stats.Sequences), int(n)))
+	return &types.MsgBridgeTokenClaim{EventNonce: n, BlockHeight: h, TokenContract: contract, Name: "Other", Symbol: fmt.Sprintf("OT%d", n), Decimals: 18, BridgerAddress: br, ChainName: q.e.chain}
+}
+
+type voteRec struct {
+	oracle int
+	h      uint64
+	ev     string
+}
+
+// castVote: one MsgClaim of oracle o.  `crossed` = this vote made the event observed (or the attempt panicked, which only the
+// attestation handler / clean-ups can do).
+func (q *seq) castVote(o int, n, h uint64, ev evSpec) (res string, crossed bool) {
+	before := q.e.k.GetLastObservedEventNonce(q.ctx)
+	res = q.claim(q.buildClaim(o, n, h, ev))
+	if strings.HasPrefix(res, "ok") {
+		q.votes[n] = append(q.votes[n], voteRec{o, h, ev.String()})
+	}
+	crossed = q.e.k.GetLastObservedEventNonce(q.ctx) != before || strings.HasPrefix(res, "panic")
+	if crossed && q.crossedBy == nil {
+		q.crossedBy = &voteRec{o, h, ev.String()}
+		q.crossedNonce = n
+	}
+	return res, crossed
+}
+
+// obs: every oracle that has not yet voted for the next event nonce submits the same claim (h, ev), in index order; the
+// result is that of the vote that completed the quorum (of the last vote if none did)
+func (q *seq) opObs(h uint64, ev evSpec) (string, string) {
+	n := q.nextEventNonce()
+	res, done := "err", false
+	for o := range q.e.oracles {
+		if q.e.k.GetLastEventNonceByOracle(q.ctx, q.e.oracles[o])+1 != n {
+			continue
+		}
+		r, crossed := q.castVote(o, n, h, ev)
+		if !done {
+			res = r
+		}
+		if crossed {
+			done = true
+		}
+	}
+	return fmt.Sprintf("obs %d %s", h, ev), res
+}
+
+// vote: one oracle's claim on its own
+func (q *seq) opVote(o int, n, h uint64, ev evSpec) (string, string) {
+	res, _ := q.castVote(o, n, h, ev)
+	return fmt.Sprintf("vote %d %d %d %s", o, n, h, ev), res
+}
+
+func (q *seq) opObsOther(h uint64) (string, string) { return q.opObs(h, evSpec{kind: "other"}) }
+
 func (q *seq) opObsBatch(h uint64, tk int, nonce uint64) (string, string) {
-	res := q.claim(&types.MsgSendToExternalClaim{EventNonce: q.nextEventNonce(), BlockHeight: h, BatchNonce: nonce, TokenContract: q.e.tokens[tk].contract,
-		BridgerAddress: q.e.bridger.String(), ChainName: q.e.chain})
-	return fmt.Sprintf("obs %d batch %d %d", h, tk, nonce), res
+	return q.opObs(h, evSpec{"batch", uint64(tk), nonce})
 }
 
 func (q *seq) opObsResult(h uint64, call uint64, ok bool) (string, string) {
-	res := q.claim(&types.MsgBridgeCallResultClaim{ChainName: q.e.chain, BridgerAddress: q.e.bridger.String(), EventNonce: q.nextEventNonce(), BlockHeight: h, Nonce: call,
-		TxOrigin: q.e.dests[0], Success: ok, Cause: ""})
-	b := 0
+	b := uint64(0)
 	if ok {
 		b = 1
 	}
-	return fmt.Sprintf("obs %d result %d %d", h, call, b), res
+	return q.opObs(h, evSpec{"result", call, b})
 }
 
 func (q *seq) opExec(n uint64) (string, string) {
@@ -1527,19 +1677,195 @@ func (q *seq) monitor(op, res string, pre, post snap) {
 // do runs one op, monitors, emits
 func (q *seq) do(f func() (string, string)) string {
 	pre := q.snapshot()
+	q.crossedBy = nil
 	op, res := f()
 	post := q.snapshot()
-	q.leanStep(op, res, pre, post)
+	// what the monitors and the external-chain ghost see: the observation a quorum-completing vote performs (with the height
+	// and the event of that voter's claim), or — when no vote of this line completed a quorum — an op that must change nothing
+	eff := op
+	if w := strings.Fields(op); w[0] == "vote" || w[0] == "obs" {
+		if q.crossedBy != nil {
+			eff = fmt.Sprintf("obs %d %s", q.crossedBy.h, q.crossedBy.ev)
+		} else {
+			eff = "vote " + strings.Join(w[1:], " ")
+		}
+	}
+	q.leanStep(eff, res, pre, post)
 	q.out.Emit(op, q.line(res, post)+" adm="+q.lg.admNow) // first, so that the replay of a violation ends with the op that violates
-	q.extMonitor(op, res, pre, post)
-	q.monitor(op, res, pre, post)
+	q.quorumMonitor(op, pre, post)
+	q.extMonitor(eff, res, pre, post)
+	q.monitor(eff, res, pre, post)
 	w := strings.Fields(op)
 	kind := w[0]
 	if kind == "obs" {
 		kind += ":" + w[2]
 	}
+	if kind == "vote" {
+		kind += ":" + w[4]
+		if q.crossedBy != nil {
+			kind += ":completes-quorum"
+		}
+	}
 	q.out.Count("op:" + kind + ":" + strings.SplitN(res, ":", 2)[0])
 	return res
+}
+
+// quorumMonitor: C06 "an observed external event proves the external chain's height": the height stored as observed external
+// height — the one both timeout clean-ups compare with — and the event that was executed must have been reported by oracles
+// holding the required power, each in its own claim.
+func (q *seq) quorumMonitor(op string, pre, post snap) {
+	out := propFilter{q.out}
+	if post.next != pre.next && strings.HasPrefix(op, "vote") && q.crossedBy == nil {
+		out.Violate("C05/C06 vote: a vote that did not complete a quorum issued an id")
+	}
+	if w := strings.Fields(op); (w[0] == "vote" || w[0] == "obs") && q.crossedBy == nil && (pre.obsExt != post.obsExt || q.line("", pre) != q.line("", post)) {
+		out.Violate("C05/C06 vote without a quorum changed state: a claim that did not complete a quorum changed the observed heights / event nonce, the pool, the batches, the bridge calls or a balance (only an event observed by a quorum may do that)")
+	}
+	if q.crossedBy == nil || q.e.k.GetLastObservedEventNonce(q.ctx) != q.crossedNonce {
+		return
+	}
+	n := q.crossedNonce
+	required := 66 * q.e.total / 100
+	var same, sameHeight, atLeast int64
+	for _, v := range q.votes[n] {
+		if v.h == post.obsExt {
+			sameHeight += q.e.powers[v.oracle]
+		}
+		if v.h >= post.obsExt {
+			atLeast += q.e.powers[v.oracle]
+		}
+		if v.h == post.obsExt && v.ev == q.crossedBy.ev {
+			same += q.e.powers[v.oracle]
+		}
+	}
+	q.out.Count(fmt.Sprintf("votes:observed-with-%d-votes", len(q.votes[n])))
+	released := len(post.batches) < len(pre.batches) || len(post.calls) < len(pre.calls)
+	if sameHeight < required {
+		what := "nothing was released at this observation"
+		if released {
+			what = "batches / bridge calls were released for timeout at this observation"
+		}
+		if atLeast < required {
+			what += "; not even the oracles reporting at least that height reach the quorum"
+		}
+		out.Violate(fmt.Sprintf("C05/C06 release only after timeout height OBSERVED BY A QUORUM: event nonce %d was observed with external height %d (the height the timeout clean-ups compare with) although the oracles that reported this height for it hold %d < required %d of total %d: votes that disagree on the height were summed into one attestation and the quorum-completing voter's height was stored; %s", n, post.obsExt, sameHeight, required, q.e.total, what))
+	} else if same < required {
+		out.Violate(fmt.Sprintf("C05/C06 observed event without a quorum on its content: event nonce %d was applied as `%s` although the oracles that reported exactly this event hold %d < required %d", n, q.crossedBy.ev, same, required))
+	}
+}
+
+// ---------------------------------------------------------------------------------------------------------
+// observations as votes (round 5): an event is observed through the votes of three oracles.  Most of the time all of them
+// report the same claim (`obs`); in the split-vote class one oracle whose power the others do not need reports a DIFFERENT
+// external height (boundary-biased: around the timeouts of the records in flight, far ahead, just off) or different event
+// content for the same event nonce, before, between or after the honest votes.
+
+func (q *seq) doObsOther(h uint64) string { return q.doObs(h, evSpec{kind: "other"}) }
+func (q *seq) doObsBatch(h uint64, tk int, nonce uint64) string {
+	return q.doObs(h, evSpec{"batch", uint64(tk), nonce})
+}
+func (q *seq) doObsResult(h uint64, call uint64, ok bool) string {
+	b := uint64(0)
+	if ok {
+		b = 1
+	}
+	return q.doObs(h, evSpec{"result", call, b})
+}
+
+func (q *seq) doObs(h uint64, ev evSpec) string {
+	if !q.noSplit && q.rng.Intn(3) == 0 {
+		n := q.nextEventNonce()
+		q.splitVotes(h, ev)
+		if q.nextEventNonce() != n { // the honest votes cast one by one already completed the quorum
+			return "ok"
+		}
+	}
+	return q.do(func() (string, string) { return q.opObs(h, ev) })
+}
+
+// lieHeight: a height different from h, near a timeout of a record in flight when there is one
+func (q *seq) lieHeight(h uint64, sn snap) uint64 {
+	var cands []uint64
+	for _, b := range sn.batches {
+		cands = append(cands, b.timeout-1, b.timeout, b.timeout+1)
+	}
+	for _, c := range sn.calls {
+		cands = append(cands, c.timeout-1, c.timeout, c.timeout+1)
+	}
+	cands = append(cands, h+1, h+uint64(1+q.rng.Intn(1000)), h+10_000_000)
+	if h > 1 {
+		cands = append(cands, h-1, uint64(1+q.rng.Intn(int(min(h-1, 1_000_000)))))
+	}
+	for i := 0; i < 8; i++ {
+		if c := cands[q.rng.Intn(len(cands))]; c != h && c > 0 {
+			return c
+		}
+	}
+	return h + 1
+}
+
+func (q *seq) splitVotes(h uint64, ev evSpec) {
+	n := q.nextEventNonce()
+	var elig []int
+	for o := range q.e.oracles {
+		if q.e.k.GetLastEventNonceByOracle(q.ctx, q.e.oracles[o])+1 == n {
+			elig = append(elig, o)
+		}
+	}
+	if len(elig) != len(q.e.oracles) {
+		return
+	}
+	required := 66 * q.e.total / 100
+	var liars []int
+	for _, o := range elig {
+		if q.e.total-q.e.powers[o] >= required {
+			liars = append(liars, o)
+		}
+	}
+	if len(liars) == 0 {
+		return
+	}
+	liar := liars[q.rng.Intn(len(liars))]
+	sn := q.snapshot()
+	lh, lev := h, ev
+	switch k := q.rng.Intn(8); {
+	case k < 6 || ev.kind == "other":
+		lh = q.lieHeight(h, sn)
+		q.out.Count("votes:split:height")
+		if lh > h {
+			q.out.Count("votes:split:height:above")
+		} else {
+			q.out.Count("votes:split:height:below")
+		}
+	case ev.kind == "batch":
+		if q.rng.Intn(2) == 0 {
+			lev.b = ev.b + 1
+		} else {
+			lev.a = (ev.a + 1) % nTokens
+		}
+		q.out.Count("votes:split:content")
+	default:
+		lev.b = 1 - ev.b
+		q.out.Count("votes:split:content")
+	}
+	var honest []int
+	for _, o := range q.rng.Perm(len(elig)) {
+		if elig[o] != liar {
+			honest = append(honest, elig[o])
+		}
+	}
+	before := q.rng.Intn(len(honest) + 1) // honest votes cast before the deviating one
+	q.out.Count(fmt.Sprintf("votes:split:honest-before-%d", before))
+	for _, o := range honest[:before] {
+		q.do(func() (string, string) { return q.opVote(o, n, h, ev) })
+	}
+	if q.nextEventNonce() != n {
+		q.out.Count("votes:split:late-vote")
+	}
+	q.do(func() (string, string) { return q.opVote(liar, n, lh, lev) })
+	if q.rng.Intn(6) == 0 { // malformed: a second claim of the same oracle for the nonce, a nonce ahead
+		q.do(func() (string, string) { return q.opVote(liar, n+uint64(q.rng.Intn(3)), h, ev) })
+	}
 }
 
 // ---------------------------------------------------------------------------------------------------------
@@ -1726,13 +2052,13 @@ func (q *seq) randomOp() {
 					b = ex[len(ex)-1]
 				}
 				ah := q.admissibleHeight(b.timeout)
-				q.do(func() (string, string) { return q.opObsBatch(ah, b.token, uint64(b.nonce)) })
+				q.doObsBatch(ah, b.token, uint64(b.nonce))
 			case k < 65 && len(rc) > 0:
 				c := rc[q.rng.Intn(len(rc))]
 				ah := q.admissibleHeight(c.timeout)
-				q.do(func() (string, string) { return q.opObsResult(ah, uint64(c.nonce), q.rng.Intn(2) == 0) })
+				q.doObsResult(ah, uint64(c.nonce), q.rng.Intn(2) == 0)
 			default:
-				q.do(func() (string, string) { return q.opObsOther(h) })
+				q.doObsOther(h)
 			}
 			break
 		}
@@ -1743,27 +2069,23 @@ func (q *seq) randomOp() {
 				b = ex[len(ex)-1]
 			}
 			ah := q.admissibleHeight(b.timeout)
-			q.do(func() (string, string) { return q.opObsBatch(ah, b.token, uint64(b.nonce)) })
+			q.doObsBatch(ah, b.token, uint64(b.nonce))
 		case k < 35 && len(sn.batches) > 0:
 			b := sn.batches[q.rng.Intn(len(sn.batches))]
-			q.do(func() (string, string) { return q.opObsBatch(h, b.token, uint64(b.nonce)) })
+			q.doObsBatch(h, b.token, uint64(b.nonce))
 		case k >= 39 && k < 50 && len(rc) > 0: // a bridge call the contract still accepts
 			c := rc[q.rng.Intn(len(rc))]
 			ah := q.admissibleHeight(c.timeout)
-			q.do(func() (string, string) { return q.opObsResult(ah, uint64(c.nonce), q.rng.Intn(2) == 0) })
+			q.doObsResult(ah, uint64(c.nonce), q.rng.Intn(2) == 0)
 		case k >= 35 && k < 39:
-			q.do(func() (string, string) {
-				return q.opObsBatch(h, q.rng.Intn(nTokens), uint64(q.rng.Intn(int(q.lastBatch)+2)))
-			})
+			q.doObsBatch(h, q.rng.Intn(nTokens), uint64(q.rng.Intn(int(q.lastBatch)+2)))
 		case k < 60 && len(sn.calls) > 0:
 			c := sn.calls[q.rng.Intn(len(sn.calls))]
-			q.do(func() (string, string) { return q.opObsResult(h, uint64(c.nonce), q.rng.Intn(2) == 0) })
+			q.doObsResult(h, uint64(c.nonce), q.rng.Intn(2) == 0)
 		case k >= 60 && k < 62:
-			q.do(func() (string, string) {
-				return q.opObsResult(h, uint64(q.rng.Intn(int(q.lastCall)+2)), q.rng.Intn(2) == 0)
-			})
+			q.doObsResult(h, uint64(q.rng.Intn(int(q.lastCall)+2)), q.rng.Intn(2) == 0)
 		default:
-			q.do(func() (string, string) { return q.opObsOther(h) })
+			q.doObsOther(h)
 		}
 	case r < 90: // execute a pending result
 		n := uint64(q.rng.Intn(int(q.e.k.GetLastObservedEventNonce(q.ctx)) + 2))
@@ -1889,7 +2211,7 @@ func (q *seq) scripted(kind int) {
 	}
 	switch kind {
 	case 0: // batch size limit: more than OutgoingTxBatchSize transfers with few distinct fees
-		q.do(func() (string, string) { return q.opObsOther(1000) })
+		q.doObsOther(1000)
 		nSend := []int{99, 100, 101, 104, 104}[q.rng.Intn(5)] // OutgoingTxBatchSize - 1, exactly, + 1, well above
 		q.out.Count(fmt.Sprintf("scn:batch-size-boundary:eligible=%d", nSend))
 		for i := 0; i < nSend; i++ {
@@ -1904,7 +2226,7 @@ func (q *seq) scripted(kind int) {
 		q.do(func() (string, string) { return q.opBlock(1) })
 		q.do(func() (string, string) { return q.opReqBatch(0, 1, 0, d[1]) })
 	case 1: // batch 2 executed before batch 1 times out; then time-out boundary
-		q.do(func() (string, string) { return q.opObsOther(500) })
+		q.doObsOther(500)
 		send(0, 0, 100, 2)
 		send(1, 0, 100, 2)
 		q.do(func() (string, string) { return q.opReqBatch(0, 1, 0, d[1]) })
@@ -1916,18 +2238,18 @@ func (q *seq) scripted(kind int) {
 		q.do(func() (string, string) { return q.opReqBatch(1, 1, 0, d[1]) })
 		sn := q.snapshot()
 		if len(sn.batches) >= 2 {
-			q.do(func() (string, string) { return q.opObsBatch(sn.batches[0].timeout-1, 0, uint64(sn.batches[1].nonce)) })
+			q.doObsBatch(sn.batches[0].timeout-1, 0, uint64(sn.batches[1].nonce))
 		}
 		q.do(func() (string, string) { return q.opCancel(1, 0) })
 		sn = q.snapshot()
 		for _, b := range sn.batches {
 			t := b.timeout
-			q.do(func() (string, string) { return q.opObsOther(t - 1) })
-			q.do(func() (string, string) { return q.opObsOther(t) })
-			q.do(func() (string, string) { return q.opObsOther(t + 1) })
+			q.doObsOther(t - 1)
+			q.doObsOther(t)
+			q.doObsOther(t + 1)
 		}
 	case 2: // fee increase racing a batch request
-		q.do(func() (string, string) { return q.opObsOther(700) })
+		q.doObsOther(700)
 		send(0, 0, 100, 2)
 		send(1, 0, 100, 3)
 		q.do(func() (string, string) { return q.opIncFee(1, 2, 0, 2) })
@@ -1938,7 +2260,7 @@ func (q *seq) scripted(kind int) {
 		q.do(func() (string, string) { return q.opBlock(1) })
 		q.do(func() (string, string) { return q.opReqBatch(0, 1, 4, d[1]) })
 	case 3: // bridge-call result observed, left pending, a later event reaches the timeout
-		q.do(func() (string, string) { return q.opObsOther(900) })
+		q.doObsOther(900)
 		q.do(func() (string, string) {
 			return q.opBridgeCall(0, 1, d[2], "abcd", "00ff", [][2]int64{{0, 70}, {1, 30}})
 		})
@@ -1949,16 +2271,16 @@ func (q *seq) scripted(kind int) {
 		if len(sn.calls) > 0 {
 			t := sn.calls[0].timeout
 			ok := q.rng.Intn(2) == 0
-			q.do(func() (string, string) { return q.opObsResult(t-1, 1, ok) })
+			q.doObsResult(t-1, 1, ok)
 			pend := q.e.k.GetLastObservedEventNonce(q.ctx)
 			if q.rng.Intn(2) == 0 {
 				q.do(func() (string, string) { return q.opExec(pend) })
 			}
-			q.do(func() (string, string) { return q.opObsOther(t) })
+			q.doObsOther(t)
 			q.do(func() (string, string) { return q.opExec(pend) })
 		}
 	case 4: // several tokens, interleaved batch nonces, executions in every order the bridge contract accepts
-		q.do(func() (string, string) { return q.opObsOther(uint64(300 + q.rng.Intn(300))) })
+		q.doObsOther(uint64(300 + q.rng.Intn(300)))
 		order := q.rng.Perm(nTokens)
 		for round := 0; round < 2; round++ {
 			for _, tk := range order {
@@ -1978,7 +2300,7 @@ func (q *seq) scripted(kind int) {
 				b = ex[len(ex)-1-q.rng.Intn(min(len(ex), 2))] // a late batch first
 			}
 			ah := q.admissibleHeight(b.timeout)
-			q.do(func() (string, string) { return q.opObsBatch(ah, b.token, uint64(b.nonce)) })
+			q.doObsBatch(ah, b.token, uint64(b.nonce))
 			if q.rng.Intn(3) == 0 {
 				sn := q.snapshot()
 				if len(sn.pool) > 0 {
@@ -1989,7 +2311,7 @@ func (q *seq) scripted(kind int) {
 		}
 	case 6: // entries created through the precompiles (ERC-20 origin) next to entries created by messages: every way of settling
 		q.do(func() (string, string) { return q.opParams(1000, 3000, 60000, 3600001) })
-		q.do(func() (string, string) { return q.opObsOther(uint64(100 + q.rng.Intn(900))) })
+		q.doObsOther(uint64(100 + q.rng.Intn(900)))
 		q.do(func() (string, string) { return q.opPSend(0, d[0], 0, 100, 2) }) // 1: cancelled from the pool
 		q.do(func() (string, string) { return q.opPSend(1, d[0], 0, 100, 3) }) // 2: batched, batch times out, cancelled
 		send(2, 0, 100, 3)                                                     // 3: message origin, same batch
@@ -2011,28 +2333,28 @@ func (q *seq) scripted(kind int) {
 		sn := q.snapshot()
 		for _, b := range sn.batches {
 			if b.token == 1 {
-				q.do(func() (string, string) { return q.opObsBatch(b.timeout-1, 1, uint64(b.nonce)) })
+				q.doObsBatch(b.timeout-1, 1, uint64(b.nonce))
 			}
 		}
 		if len(sn.calls) >= 4 {
 			t := sn.calls[0].timeout
-			q.do(func() (string, string) { return q.opObsResult(t-1, 3, false) })
+			q.doObsResult(t-1, 3, false)
 			q.do(func() (string, string) { return q.opExec(q.e.k.GetLastObservedEventNonce(q.ctx)) })
-			q.do(func() (string, string) { return q.opObsResult(t-1, 4, true) })
+			q.doObsResult(t-1, 4, true)
 			q.do(func() (string, string) { return q.opPExec(q.e.k.GetLastObservedEventNonce(q.ctx), 1) })
-			q.do(func() (string, string) { return q.opObsOther(t) })
+			q.doObsOther(t)
 		}
 		sn = q.snapshot()
 		for _, b := range sn.batches {
 			bt := b.timeout
-			q.do(func() (string, string) { return q.opObsOther(bt + 1) })
+			q.doObsOther(bt + 1)
 		}
 		q.do(func() (string, string) { return q.opPCancel(2, 1) })
 		q.do(func() (string, string) { return q.opPCancel(3, 2) })
 	case 8: // the timeout period shrinks between two batches of one token: the LATER batch (higher nonce) has the EARLIER timeout; the
 		// external chain executes them in nonce order, the first one below the second one's timeout
 		q.do(func() (string, string) { return q.opParams(1000, 3000, 43200000, 3600001) })
-		q.do(func() (string, string) { return q.opObsOther(uint64(100 + q.rng.Intn(900))) })
+		q.doObsOther(uint64(100 + q.rng.Intn(900)))
 		tk := q.rng.Intn(nTokens)
 		send(0, tk, 100, 2)
 		send(1, tk, 100, 3)
@@ -2046,12 +2368,12 @@ func (q *seq) scripted(kind int) {
 			q.out.Count("scn:later-batch-of-the-token-has-the-earlier-timeout")
 			b1, b2 := sn.batches[0], sn.batches[1]
 			h := max(q.extMaxH, 1)
-			q.do(func() (string, string) { return q.opObsBatch(h, b1.token, uint64(b1.nonce)) })
+			q.doObsBatch(h, b1.token, uint64(b1.nonce))
 			ah := q.admissibleHeight(b2.timeout)
-			q.do(func() (string, string) { return q.opObsBatch(ah, b2.token, uint64(b2.nonce)) })
+			q.doObsBatch(ah, b2.token, uint64(b2.nonce))
 		}
 	case 7: // genesis export / import in the middle of a history (only with C05_GENESIS=1)
-		q.do(func() (string, string) { return q.opObsOther(uint64(300 + q.rng.Intn(300))) })
+		q.doObsOther(uint64(300 + q.rng.Intn(300)))
 		send(0, 0, 100, 2)
 		send(1, 0, 100, 3)
 		send(2, 1, 50, 1)
@@ -2066,7 +2388,7 @@ func (q *seq) scripted(kind int) {
 		q.do(func() (string, string) { return q.opBridgeCall(0, 1, d[2], "cd", "", [][2]int64{{1, 5}}) })
 	case 5: // a quiet bridge: no event for longer than the timeout period on fxcore's clock, then the external chain acts
 		q.do(func() (string, string) { return q.opParams(1000, 3000, 60000, 3600001) })
-		q.do(func() (string, string) { return q.opObsOther(uint64(100 + q.rng.Intn(900))) })
+		q.doObsOther(uint64(100 + q.rng.Intn(900)))
 		send(0, 0, 100, 2)
 		send(1, 1, 100, 3)
 		q.do(func() (string, string) { return q.opReqBatch(0, 1, 0, d[1]) })
@@ -2081,11 +2403,11 @@ func (q *seq) scripted(kind int) {
 		// the external chain is slower than projected: it still runs what it holds
 		for _, b := range q.extExecutable() {
 			ah := q.admissibleHeight(b.timeout)
-			q.do(func() (string, string) { return q.opObsBatch(ah, b.token, uint64(b.nonce)) })
+			q.doObsBatch(ah, b.token, uint64(b.nonce))
 		}
 		for _, c := range q.extRunnableCalls() {
 			ah := q.admissibleHeight(c.timeout)
-			q.do(func() (string, string) { return q.opObsResult(ah, uint64(c.nonce), true) })
+			q.doObsResult(ah, uint64(c.nonce), true)
 			q.do(func() (string, string) { return q.opExec(q.e.k.GetLastObservedEventNonce(q.ctx)) })
 		}
 	}
@@ -2151,6 +2473,14 @@ func (q *seq) replayLine(line string) {
 		return v
 	}
 	switch {
+	case w[0] == "vote" && len(w) >= 5 && (w[4] == "other" && len(w) == 5 || (w[4] == "batch" || w[4] == "result") && len(w) == 7):
+		// `vote <oracle> <event nonce> <height> <event>`: one oracle's claim (heights may be written TB<n>… as for obs)
+		ev := evSpec{kind: w[4]}
+		if len(w) == 7 {
+			ev.a, ev.b = uint64(num(5)), uint64(num(6))
+		}
+		h := q.resolveHeight(w[3])
+		q.do(func() (string, string) { return q.opVote(int(num(1)), uint64(num(2)), h, ev) })
 	case w[0] == "send" && len(w) == 6:
 		q.do(func() (string, string) { return q.opSend(int(num(1)), q.addr(w[2]), int(num(3)), num(4), num(5)) })
 	case w[0] == "cancel" && len(w) == 3:
@@ -2188,13 +2518,13 @@ func (q *seq) replayLine(line string) {
 		})
 	case w[0] == "obs" && len(w) == 3 && w[2] == "other":
 		h := q.resolveHeight(w[1])
-		q.do(func() (string, string) { return q.opObsOther(h) })
+		q.doObsOther(h)
 	case w[0] == "obs" && len(w) == 5 && w[2] == "batch":
 		h := q.resolveHeight(w[1])
-		q.do(func() (string, string) { return q.opObsBatch(h, int(num(3)), uint64(num(4))) })
+		q.doObsBatch(h, int(num(3)), uint64(num(4)))
 	case w[0] == "obs" && len(w) == 5 && w[2] == "result":
 		h := q.resolveHeight(w[1])
-		q.do(func() (string, string) { return q.opObsResult(h, uint64(num(3)), w[4] == "1") })
+		q.doObsResult(h, uint64(num(3)), w[4] == "1")
 	case w[0] == "exec" && len(w) == 2:
 		n := uint64(0)
 		if w[1] == "last" {
@@ -2222,11 +2552,11 @@ func newSeq(e *env, out *hx.Out, rng *rand.Rand) *seq {
 	ctx, _ := e.base.CacheContext()
 	q := &seq{e: e, ctx: ctx.WithEventManager(sdk.NewEventManager()), out: out, rng: rng, everPresent: map[int]bool{}, goneTx: map[int]string{}, executedTx: map[int]bool{},
 		refundedTx: map[int]bool{}, obsSuccessCall: map[int]bool{}, refundedCall: map[int]bool{}, executedCall: map[int]bool{},
-		relEver: map[int]bool{}, msgEver: map[int]bool{}, extBatches: map[[2]int]batchRec{}, extLast: make([]int, nTokens), extCalls: map[int]callRec{}, extCallDone: map[int]bool{}, extExecTx: map[int]bool{},
+		votes: map[uint64][]voteRec{}, relEver: map[int]bool{}, msgEver: map[int]bool{}, extBatches: map[[2]int]batchRec{}, extLast: make([]int, nTokens), extCalls: map[int]callRec{}, extCallDone: map[int]bool{}, extExecTx: map[int]bool{},
 		lg: leanGhost{lastNonce: map[int]int{}, created: map[[2]int]uint64{}, calls: map[int]uint64{}, callDone: map[int]bool{}, allAdm: true}}
 	p := e.params
 	out.Reset(strconv.Itoa(nActors), strconv.Itoa(nTokens), strconv.Itoa(2*fundEach+ercFund), strconv.Itoa(ercFund), fmt.Sprint(p.AverageBlockTime), fmt.Sprint(p.AverageExternalBlockTime),
-		fmt.Sprint(p.ExternalBatchTimeout), fmt.Sprint(p.BridgeCallTimeout), fmt.Sprint(q.ctx.BlockHeight()))
+		fmt.Sprint(p.ExternalBatchTimeout), fmt.Sprint(p.BridgeCallTimeout), fmt.Sprint(q.ctx.BlockHeight()), joinInts(e.powers), fmt.Sprint(e.total))
 	return q
 }
 
@@ -2245,6 +2575,7 @@ func runCorpus(envs []*env, out *hx.Out, rng *rand.Rand) {
 	for _, f := range files {
 		for _, e := range envs {
 			q := newSeq(e, out, rng)
+			q.noSplit = true
 			out.Count("seq:corpus")
 			for _, l := range hx.ReadLines(f) {
 				if strings.HasPrefix(strings.TrimSpace(l), "#") {
@@ -2283,7 +2614,7 @@ func runSeq(e *env, out *hx.Out, rng *rand.Rand, idx int, nOps int, script int) 
 		if rng.Intn(4) == 0 { // external height far above fxcore's own height
 			h0 = uint64(1_000_000 + rng.Intn(20_000_000))
 		}
-		q.do(func() (string, string) { return q.opObsOther(h0) })
+		q.doObsOther(h0)
 	}
 	for i := 0; i < nOps; i++ {
 		q.randomOp()
@@ -2297,7 +2628,7 @@ func TestC05(t *testing.T) {
 	seed := hx.Seed()
 	rng := rand.New(rand.NewSource(seed))
 	out := hx.NewOut()
-	defer out.Close("correspondence: real eth/bsc crosschain keepers (message servers in a tx cache context; observation through MsgClaim->Attest->TryAttestation with one oracle; ExecuteClaim; the keeper's real EndBlocker on every block op) vs Lean model, full state compared after every op: result, id counters, pool IN STORE ITERATION ORDER, batches with transfers, bridge calls, pending results, observed heights, balances of 4 actors x 3 tokens, and the admissibility verdict of the external-chain ghost (Lean `admissible` vs the harness' own); monitors on real state: partition, fresh ids, settled once, executed-never-refunded, refund amounts and recipients, per-token conservation, cancel only by sender, fee increase exact, pick = fee-descending prefix, cancelled batch restores pool, nothing leaves a batch/the store except at an observation, release only at observed height >= timeout, an execution cancels only what it supersedes, nothing batched before an observation, every event the bridge contract can produce finds its record (external-chain ghost from FxBridgeLogic.sol rules). non-trivial = distinct final-state shapes")
+	defer out.Close("correspondence: real eth/bsc crosschain keepers (message servers in a tx cache context; observation through MsgClaim->Attest->TryAttestation with THREE oracles voting with their own claims (all alike, or one deviating in height / content); ExecuteClaim; the keeper's real EndBlocker on every block op) vs Lean model, full state compared after every op: result, id counters, pool IN STORE ITERATION ORDER, batches with transfers, bridge calls, pending results, observed heights, balances of 4 actors x 3 tokens, and the admissibility verdict of the external-chain ghost (Lean `admissible` vs the harness' own); monitors on real state: partition, fresh ids, settled once, executed-never-refunded, refund amounts and recipients, per-token conservation, cancel only by sender, fee increase exact, pick = fee-descending prefix, cancelled batch restores pool, nothing leaves a batch/the store except at an observation, release only at observed height >= timeout, the observed height reported by a quorum, a vote without a quorum changes nothing, an execution cancels only what it supersedes, nothing batched before an observation, every event the bridge contract can produce finds its record (external-chain ghost from FxBridgeLogic.sol rules). non-trivial = distinct final-state shapes")
 
 	s := hx.NewSuite(t, 1)
 	envs := []*env{setupChain(t, s, "eth", s.App.EthKeeper), setupChain(t, s, "bsc", s.App.BscKeeper), setupChain(t, s, "tron", s.App.TronKeeper)}
